@@ -2,6 +2,7 @@ package mon
 
 import (
 	"compress/gzip"
+	"sync/atomic"
 	"crypto/sha256"
 	"fmt"
 	"io"
@@ -62,8 +63,15 @@ func (p storeParams) freshConfig(dir string) (*comet.StorageConfig, error) {
 		if err != nil {
 			return nil, err
 		}
+		// every fresh template is trained on the same sample in a DIFFERENT order (k-means then numbers/places its
+		// clusters differently): a segment must answer with the centroids it was written with, not the template's
 		nodes := make([]comet.VectorNode, len(p.ivfTrain))
-		for i, v := range p.ivfTrain {
+		rot := int(ivfTrainRotation.Add(1)) % max(len(p.ivfTrain), 1)
+		for i := range p.ivfTrain {
+			v := p.ivfTrain[(i*7+rot)%len(p.ivfTrain)]
+			if len(p.ivfTrain)%7 == 0 {
+				v = p.ivfTrain[(i+rot)%len(p.ivfTrain)]
+			}
 			nodes[i] = *comet.NewVectorNodeWithID(uint32(i+1), cloneF32(v))
 		}
 		if err := x.Train(nodes); err != nil {
@@ -87,6 +95,8 @@ func (p storeParams) open(dir string) (*comet.PersistentHybridIndex, error) {
 	}
 	return comet.OpenPersistentHybridIndex(cfg)
 }
+
+var ivfTrainRotation atomic.Int64
 
 // storeDoc is one document of a store workload. Every document carries the marker term "common" in its
 // text and the field kind="doc" in its metadata so that one query per modality matches all of them.
